@@ -25,7 +25,9 @@ def main():
                 "replay_cmd_template": "./check replay {path}",
                 "engine": "prsa",
                 "level_claimed": {"category": getattr(m, "LEVEL", "other"), "text": m.TEXT, "design_ref": f"DESIGN.md §3 {pid}"},
-                "level_note": m.NOTE,
+                "level_note": m.NOTE + " Dependency closure: the value rules of every rule group that the analysed functions reach through the resolved call graph "
+                                       "(metric classes, pc, generators, alphabet, ensure_numpy, _make_output, public-name resolution, ...) are run on this property's behalf "
+                                       "under rule names <id>-DEP/<rule> (prsa/deps.py, DESIGN 8.8); the groups run are listed in the evidence (coverage.dependency_closure).",
                 "technique": m.TECHNIQUE,
             })
         else:
